@@ -162,6 +162,13 @@ def gen_case(rng):
         args.append("%st: index")
     else:
         pre.append(f"    %st = arith.constant {st[1]} : index")
+    if rng.random() < 0.15:
+        # another, ordinary loop in the same function that shares the bound / step values of the pipelined one
+        feats.append("second-loop-shares-bounds")
+        post_loop.append(f"    scf.for %j2 = {lbv} to %ub step %st {{")
+        post_loop.append('      "test.op"(%j2) {verif.id = "obs2", verif.kind = "all"} : (index) -> ()')
+        post_loop.append("      scf.yield")
+        post_loop.append("    }")
     carried = rng.random() < 0.08
     if carried:
         # a loop-carried counter, observed after the loop
@@ -334,8 +341,8 @@ def run_case(case, res):
         R.bump(res, "stage_events_compared", len(m0.stage_events))
         c0, c1 = Counter(m0.stage_events), Counter(m1.stage_events)
         # observers outside the index computations (after the stages, after the loop): same multiset of observations
-        o0 = Counter(e for e in m0.trace if e[0] == "T" and e[1] in ("tail", "cnt"))
-        o1 = Counter(e for e in m1.trace if e[0] == "T" and e[1] in ("tail", "cnt"))
+        o0 = Counter(e for e in m0.trace if e[0] == "T" and e[1] in ("tail", "cnt", "obs2"))
+        o1 = Counter(e for e in m1.trace if e[0] == "T" and e[1] in ("tail", "cnt", "obs2"))
         bad = None
         if o0 != o1:
             bad = f"observations outside the stages differ: missing {list((o0 - o1).items())[:2]} unexpected {list((o1 - o0).items())[:2]}"
